@@ -254,7 +254,11 @@ PARAM_ALPHA = ["a", "B", " ", ";", '"', "\\", "=", ",", "é", "ř",
                # characters whose UTF-8 bytes, read as Latin-1, are "white
                # space" or "line ends" to str methods (0x85 NEL, 0xA0 NBSP,
                # 0x1C-0x1F): Å = C3 85, à = C3 A0, х = D1 85, ą = C4 85
-               "\u00c5", "\u00e0", "\u0445", "\u0105", "\u2028", "_"]
+               "\u00c5", "\u00e0", "\u0445", "\u0105", "\u2028", "_",
+               # code points with a canonical (de)composition: a value comes
+               # back as given, not normalised (e + combining acute, ANGSTROM
+               # SIGN, OHM SIGN, a Hangul syllable, a ligature)
+               "e\u0301", "\u212b", "\u2126", "\ud55c", "\ufb01"]
 PARAM_MALFORMED = [
     "", ";", ";;;", " ", " ; ; ", '"', '""', '"""', 'a="', 'a="b;c', "=", "==",
     ";=;=", 'x; a="\\\\"; b="c"', 'x; a="\\"; b="c"', 'form-data; a="x\\\\"',
@@ -515,6 +519,16 @@ def run(ctx):
             if got != want:
                 ctx.violation("negotiation-roundtrip", {
                     "items": repr(items), "text": text, "got": repr(got)})
+            # what a caller does with a parsed list (sort by quality, pop
+            # the best) stays with that caller
+            if isinstance(got, list) and got:
+                got.sort(key=lambda it: (-it[1], it[0]))
+                got.pop()
+                again = outcome(H.parse_negotiation, text)
+                if again != want:
+                    ctx.violation("negotiation-parse-depends-on-history", {
+                        "items": repr(items), "text": text,
+                        "second_parse": repr(again)})
             hdr = H.Headers()
             hdr.add_header("Accept", items)
             if hdr["Accept"] != H.Headers.iso88591(text):
